@@ -55,7 +55,7 @@ func main() {
 	runner.Main(runner.Config{
 		ID:    "C01",
 		Level: "model_checking",
-		Rule: "bounded exhaustive enumeration of ordered build pairs: F1 all builds of <=2 files whose contents are strings of <=2 symbols over a 64KiB-block alphabet plus a tail in {none,1,B-1,B-1-prefix-of-A} (isomorphic pairs under A<->B dropped); F2 all small shape pairs (absent/empty/tiny files, symlink, empty dir) crossed with every registered compression setting; F3 enumerated limit family (runs around 4MiB/8MiB, shared blocks, aligned prefixes/suffixes, zero blocks); F4 every ordered triple of new files from a menu of ways to reuse two old files (state carried from file to file: continuing ranges, whole-file copies in between, unaligned reuse); F5 weak twins: contents over {A, a, B, b} (a lower-case block has the rolling checksum of its upper-case block and other bytes, so only the strong hash tells them apart), 0-2 blocks plus optional tails, one or two files, every ordered pair. Each pair: real WritePatch -> patcher+fresh bowl -> independent Lstat tree comparison. Non-trivial = decoded patch has a series with both BLOCK_RANGE and DATA, or a whole-file range op.",
+		Rule:  "bounded exhaustive enumeration of ordered build pairs: F1 all builds of <=2 files whose contents are strings of <=2 symbols over a 64KiB-block alphabet plus a tail in {none,1,B-1,B-1-prefix-of-A} (isomorphic pairs under A<->B dropped); F2 all small shape pairs (absent/empty/tiny files, symlink, empty dir) crossed with every registered compression setting; F3 enumerated limit family (runs around 4MiB/8MiB, shared blocks, aligned prefixes/suffixes, zero blocks); F4 every ordered triple of new files from a menu of ways to reuse two old files (state carried from file to file: continuing ranges, whole-file copies in between, unaligned reuse); F5 weak twins: contents over {A, a, B, b} (a lower-case block has the rolling checksum of its upper-case block and other bytes, so only the strong hash tells them apart), 0-2 blocks plus optional tails, one or two files, every ordered pair. Each pair: real WritePatch -> patcher+fresh bowl -> independent Lstat tree comparison. Non-trivial = decoded patch has a series with both BLOCK_RANGE and DATA, or a whole-file range op.",
 		Assumptions: []string{
 			"block contents are seeded pseudo-random (VERIF_SEED); byte values outside the block alphabet are not enumerated",
 			"file modes are not compared",
@@ -306,7 +306,7 @@ func body(w *runner.W) {
 		}
 		for _, L := range runs {
 			fresh := fmt.Sprintf("r1/%d", L)
-			ps = append(ps, one("-", fresh))                 // no old build at all
+			ps = append(ps, one("-", fresh))                  // no old build at all
 			ps = append(ps, one("A.B", fresh))                // unrelated old
 			ps = append(ps, one("A.B", "A."+fresh))           // matching block before the run
 			ps = append(ps, one("A.B", fresh+".B"))           // matching block after the run
